@@ -136,6 +136,9 @@ m("C06-full-update-nodes-child", FMT, "                self.nodes[parent] = H::h
 m("C06-init-tree-reset-first", PUB, "        let mut tree = PoseidonTree::default(self.tree.depth())?;\n        tree.override_range(0, leaves.into_iter(), [].into_iter())\n            .map_err(|_| Report::msg(\"Could not set leaves\"))?;\n        self.tree = tree;", "        self.tree = PoseidonTree::default(self.tree.depth())?;\n        self.tree\n            .override_range(0, leaves.into_iter(), [].into_iter())\n            .map_err(|_| Report::msg(\"Could not set leaves\"))?;", "C06")
 m("C06-pm-set-flag-before-write", PMA, "        self.tree\n            .set(index, leaf)\n            .map_err(|e| Report::msg(e.to_string()))?;\n        self.cached_leaves_indices[index] = 1;", "        self.cached_leaves_indices[index] = 1;\n        self.tree\n            .set(index, leaf)\n            .map_err(|e| Report::msg(e.to_string()))?;", "C06")
 m("C06-opt-override-validate-after", OMT, "        if indices.iter().any(|&i| i >= self.capacity()) {\n            return Err(Report::msg(\"index to remove exceeds set size\"));\n        }\n        let end = start + leaves_vec.len();", "        let end = start + leaves_vec.len();", "C06-or-C08")
+m("C06-opt-update-hashes-last-exclusive", OMT, "            for parent_index in first..=last {", "            for parent_index in first..last {", "C06")
+m("C06-opt-update-hashes-halfwidth", OMT, "            first >>= 1;\n            last >>= 1;", "            first >>= 1;\n            last = (last >> 1).min((1usize << (depth - 1)) / 2);", "C06")
+m("C06-full-update-nodes-early-exit", FMT, "            self.update_nodes(start, end)?;", "            if start != end {\n                self.update_nodes(start, end)?;\n            }", "C06")
 # ---- C08
 m("C08-opt-filter-inclusive", OMT, "        for &i in indices.iter().filter(|&&i| i < start || i >= end) {", "        for &i in indices.iter().filter(|&&i| i < start || i > end) {", "C08")
 m("C08-full-write-at-min", FMT, "        self.set_range(start, leaves_vec.into_iter())\n    }\n\n    // Sets a leaf at the next available index", "        self.set_range(indices[0].min(start), leaves_vec.into_iter())\n    }\n\n    // Sets a leaf at the next available index", "C08")
